@@ -32,6 +32,8 @@ struct State {
     /// Thread id chosen at each decision (for replay files).
     order: Vec<usize>,
     steps: usize,
+    /// (thread, point it was resumed from) in execution order: one entry per executed segment.
+    exec: Vec<(usize, u32)>,
     stuck: bool,
     /// Set when a thread panicked.
     panicked: Option<String>,
@@ -54,6 +56,7 @@ fn sched() -> &'static Sched {
             trace: Vec::new(),
             order: Vec::new(),
             steps: 0,
+            exec: Vec::new(),
             stuck: false,
             panicked: None,
         }),
@@ -77,13 +80,15 @@ const MAX_STEPS: usize = 20_000;
 
 /// Pick who runs next. `me` is the calling thread (its status already updated).
 fn switch(mut st: MutexGuard<'static, State>, me: usize) {
-    // Options: the current thread first (if runnable), then the others in id order.
+    // Options: the current thread first (if runnable), then the other runnable threads in id
+    // order, then threads that spun on a taken lock since anybody last made progress (scheduling
+    // those first would only repeat the failed attempt).
     let mut options = Vec::new();
     if st.status[me] == Status::Runnable {
         options.push(me);
     }
     for t in 0..st.status.len() {
-        if t != me && matches!(st.status[t], Status::Runnable | Status::Spinning) {
+        if t != me && st.status[t] == Status::Runnable {
             options.push(t);
         }
         if t != me && st.status[t] == Status::Blocked {
@@ -92,6 +97,11 @@ fn switch(mut st: MutexGuard<'static, State>, me: usize) {
                     options.push(t);
                 }
             }
+        }
+    }
+    for t in 0..st.status.len() {
+        if t != me && st.status[t] == Status::Spinning {
+            options.push(t);
         }
     }
     if options.is_empty() {
@@ -175,8 +185,17 @@ pub fn yield_point(point: u32) {
     }
     if point == a10::verif::points::LOCK_SPIN {
         st.status[me] = Status::Spinning;
+    } else {
+        // Progress: whoever spun may try again.
+        for t in 0..st.status.len() {
+            if st.status[t] == Status::Spinning {
+                st.status[t] = Status::Runnable;
+            }
+        }
     }
     switch(st, me);
+    // We hold the baton again: the segment after `point` runs now.
+    lock().exec.push((me, point));
 }
 
 /// What a blocking kernel wait with nothing to return does.
@@ -215,6 +234,7 @@ pub fn take_stuck() -> bool {
 }
 
 pub struct Outcome {
+    pub exec: Vec<(usize, u32)>,
     pub trace: Vec<(usize, usize, bool)>,
     pub order: Vec<usize>,
     pub stuck: bool,
@@ -235,6 +255,7 @@ pub fn run(threads: Vec<Box<dyn FnOnce() + Send>>, prefix: &[usize]) -> Outcome 
         st.trace.clear();
         st.order.clear();
         st.steps = 0;
+        st.exec.clear();
         st.stuck = false;
         st.panicked = None;
     }
@@ -282,6 +303,7 @@ pub fn run(threads: Vec<Box<dyn FnOnce() + Send>>, prefix: &[usize]) -> Outcome 
     let mut st = lock();
     st.active = false;
     Outcome {
+        exec: std::mem::take(&mut st.exec),
         trace: std::mem::take(&mut st.trace),
         order: std::mem::take(&mut st.order),
         stuck: st.stuck,
